@@ -1,0 +1,17 @@
+//go:build verif
+
+// Contracts for deductive verification (comment-only; read by /verif/govc, never compiled into the product).
+
+package schedutil
+
+// ---------------------------------------------------------------------------------------------------------
+// C18: a restarted core re-registers under its stored framework id. mesos-go attaches the stored id to SUBSCRIBE only
+// when the framework announces a failover timeout, so the announcement depends on nothing but the configured timeout:
+// whenever it is positive, the FrameworkInfo carries exactly that value.
+//@ func BuildFrameworkInfo() (fi *mesos.FrameworkInfo)
+//@   property C18
+//@   ghostvar secs float64 = 0
+//@   ghostvar asked bool = false
+//@   on aftercall (time.Duration).Seconds : secs = result ; asked = true
+//@   ensures fi != nil && asked
+//@   ensures secs > 0 ==> fi.FailoverTimeout != nil && deref(fi.FailoverTimeout) == secs
